@@ -4,7 +4,7 @@ import FeatherModel.Model.TotalWriter
 
 /-!
 # C16 — text parsers and descriptors: the slice at the leading TABs is always on a char boundary; the `[` counter
-never overflows; `get_arguments_size` panics only at its two additions
+never overflows; `get_arguments_size` (after cf30e8c) never panics
 -/
 
 namespace Total.Text
@@ -125,9 +125,7 @@ theorem descReturnOp_spec (s : JStr) : Spec [] 0 (descReturnOp s) (fun _ => True
 
 /-! ## `get_arguments_size` -/
 
-def argSites : List Nat := [Sites.argSizeWide, Sites.argSizeOne]
-
-theorem argsLoop_spec : ∀ (fuel size : Nat) (s : JStr), Spec argSites 0 (argsLoop fuel size s) (fun _ => True)
+theorem argsLoop_spec : ∀ (fuel size : Nat) (s : JStr), Spec [] 0 (argsLoop fuel size s) (fun _ => True)
   | _, _, [] => by unfold argsLoop; exact Spec.fail
   | 0, size, c :: rest => by
     unfold argsLoop
@@ -140,16 +138,16 @@ theorem argsLoop_spec : ∀ (fuel size : Nat) (s : JStr), Spec argSites 0 (argsL
     · exact Spec.ret _ trivial
     · dsimp only
       split
-      · exact Spec.bind (Spec.addU8_mem (by decide)) (fun _ _ => argsLoop_spec fuel _ _)
+      · exact Spec.bind (Spec.guard _) (fun _ _ => argsLoop_spec fuel _ _)
       · split
         · exact Spec.fail
         · split
           · split
             · exact Spec.fail
-            · exact Spec.bind (Spec.addU8_mem (by decide)) (fun _ _ => argsLoop_spec fuel _ _)
-          · exact Spec.bind (Spec.addU8_mem (by decide)) (fun _ _ => argsLoop_spec fuel _ _)
+            · exact Spec.bind (Spec.guard _) (fun _ _ => argsLoop_spec fuel _ _)
+          · exact Spec.bind (Spec.guard _) (fun _ _ => argsLoop_spec fuel _ _)
 
-theorem argSizeOp_spec (s : JStr) : Spec argSites 0 (argSizeOp s) (fun _ => True) := by
+theorem argSizeOp_spec (s : JStr) : Spec [] 0 (argSizeOp s) (fun _ => True) := by
   unfold argSizeOp argsSize
   refine Spec.bind (Q := fun _ => True) ?_ (fun _ _ => Spec.ret _ trivial)
   split
